@@ -167,20 +167,32 @@ def cbmc_run(work, tag, files, defs, opts, timeout, memgb):
     return res
 
 def harness_loops(work, tag, files, defs):
-    """names of the loops that live in harness code or in the rt/vp support headers (constant-bounded by construction)"""
+    """(names of the loops that live in harness code or in the rt/vp support headers (constant-bounded by construction),
+        names of the unit loops that contain inner loops (outer loops, from ir2c's LOOPBACK markers))"""
     cmd = ['cbmc'] + files + ['-I', MODELS, '-I', HARNESS, '-I', work] + ['-D%s=%s' % (k, v) if v is not None else '-D' + k for k, v in defs.items()] + ['--show-loops', '--json-ui']
     r = subprocess.run(cmd, stdout=subprocess.PIPE, stderr=subprocess.DEVNULL, text=True)
-    out = []
+    out = []; outer = []
+    marks = {}
+    for f in files:
+        if f.startswith(work):
+            for i, ln in enumerate(open(f), 1):
+                if 'LOOPBACK' in ln:
+                    m = re.search(r'LOOPBACK d=(\d+) nest=(\d+)', ln)
+                    marks[(os.path.abspath(f), i)] = (int(m.group(1)), int(m.group(2)))
     try:
         for item in json.loads(r.stdout):
             for lp in item.get('loops', []):
-                f = lp.get('sourceLocation', {}).get('file', '')
+                loc = lp.get('sourceLocation', {})
+                f = loc.get('file', '')
                 b = os.path.basename(f)
-                if (os.path.dirname(os.path.abspath(f)) == HARNESS and b.endswith('.c')) or b in ('rt.h', 'vp.h'):
+                if (os.path.dirname(os.path.abspath(f)) == HARNESS and b.endswith('.c')) or b in ('rt.h', 'vp.h', 'ghost.h'):
                     out.append(lp['name'])
+                else:
+                    mk = marks.get((os.path.abspath(os.path.join(loc.get('workingDirectory', ''), f)), int(loc.get('line', 0))))
+                    if mk and mk[1] == 1: outer.append(lp['name'])
     except Exception:
         pass
-    return out
+    return out, outer
 
 def trace_inputs(trace):
     ins = []
@@ -372,10 +384,12 @@ def do_check(spec, pid, tier, seed, work, a, t_start):
         if kind == 'witness': defs['WITNESS'] = None
         tag = '%s.%s%s' % (h['name'], kind, '.' + finding['id'] if finding else '')
         opts = cbmc_opts(h)
-        hl = harness_loops(work, tag, files_of(h), defs)
-        if hl:
-            us = dict(h.get('unwindset', {}))
-            for nm in hl: us.setdefault(nm, h.get('hunwind', 24))
+        hl, outer = harness_loops(work, tag, files_of(h), defs)
+        us = dict(h.get('unwindset', {}))
+        for nm in hl: us.setdefault(nm, h.get('hunwind', 24))
+        if h.get('outer_unwind'):
+            for nm in outer: us.setdefault(nm, h['outer_unwind'])
+        if us:
             opts = [o for o in opts]
             if '--unwindset' in opts:
                 i = opts.index('--unwindset'); del opts[i:i + 2]
